@@ -3,7 +3,7 @@
 // Oracle from the property statement: the lines of a file are its pieces between line feeds (a CR before the LF belongs
 // to the line end, a final piece without LF is a line, an empty final piece is not); files in the given order.
 // Grid: every file of up to 2 lines over the pool below with LF / CRLF / no final terminator (109 contents), all pairs of 21
-// representative contents, all triples of 6; every 4th content through a pipe (an input without a size); statements: SELECT input, SELECT COUNT(*), a join whose joined file is the grid file.
+// representative contents, all triples of 6; every 4th content through a pipe (an input without a size); 14 lines with a byte order mark / blanks / tabs / CR / Unicode separators at their ends as first, second and both files; statements: SELECT input, SELECT COUNT(*), a join whose joined file is the grid file.
 include!("verif_grid_common.rs");
 
 const DEF: &str = "CREATE TABLE t(line = '(.*)', line[1] => x TEXT);";
@@ -74,6 +74,19 @@ fn verif_grid() {
         let f = vec![a.clone(), c.clone(), d.clone()];
         g.case(&format!("three-files-{}-{}-{}", i, j, k), move || check_select(&f));
     } } }
+    // lines whose ends or starts are easily "tidied": a byte order mark, blanks and tabs at either end, blank-only lines, a second CR,
+    // Unicode line separators and form feeds inside a line - each reaches the query as it stands
+    let edges = ["\u{feff}v=1", "v=1  ", "\tv=1\t", "  ", " ", "v=1\r", "\u{feff}", "\u{a0}v=1\u{a0}", "v=1\u{2028}w=2", "v=1\u{c}", "v=1\u{b}x", "v=1\u{85}", "\u{feff}\u{feff}v=1", " \u{feff}v=1"];
+    for (i, e) in edges.iter().enumerate() {
+        for (j, end) in ["\n", "\r\n", ""].iter().enumerate() {
+            let one = vec![b(&format!("{}{}", e, end))];
+            let two = vec![b("v=1\n"), b(&format!("{}{}", e, end))];
+            let twice = vec![b(&format!("{}\n", e)), b(&format!("{}{}w=22\n", e, if end.is_empty() { "\n" } else { end }))];
+            g.case(&format!("edge-{}-{}-one", i, j), move || check_select(&one));
+            g.case(&format!("edge-{}-{}-second-file", i, j), move || check_select(&two));
+            g.case(&format!("edge-{}-{}-both-files", i, j), move || check_select(&twice));
+        }
+    }
     // long lines and many lines
     for (i, n) in [1usize, 4095, 4096, 4097, 8192, 8193, 20000, 65536, 1048575, 1048576, 1048577, 3000000].iter().enumerate() {
         let long = "y".repeat(*n);
